@@ -368,6 +368,14 @@ pub async fn run_net_scenario(sc: &Value, workdir: &str) -> Vec<Value> {
                 let ours = if text.starts_with("ipc://") { true } else { res != "refused" && listening_here(port) };
                 out.push(json!({"ev":"probe","name":nm,"res":res,"settled":want_refused,"ours":ours}));
             }
+            "ipc_sabotage" => {
+                // somebody replaces the endpoint's socket file by a directory: the listener keeps working (it holds the
+                // socket), but the library's removal of the file at unbind / close must fail - and be reported
+                let text = names.get(&nm).cloned().unwrap_or_default();
+                let path = text.strip_prefix("ipc://").unwrap_or("").to_string();
+                let ok = std::fs::remove_file(&path).is_ok() && std::fs::create_dir(&path).is_ok();
+                out.push(json!({"ev":"ipc_sabotage","name":nm,"ok":ok}));
+            }
             "ipc_exists" => {
                 let text = names.get(&nm).cloned().unwrap_or_default();
                 let path = text.strip_prefix("ipc://").unwrap_or("").to_string();
